@@ -29,7 +29,7 @@ func c06Cells(tier string) []Cell {
 	for front := 0; front < 3; front++ {
 		for _, path := range []string{"cold", "syncS", "bgS", "waiter", "skipF"} {
 			for _, caller := range []string{"none", "0", "10s", "1h", "-1s"} {
-				for _, cancel := range []string{"never", "before", "after"} {
+				for _, cancel := range []string{"never", "before", "after", "deadline"} {
 					cells = append(cells, Cell{ID: c06Cell{Front: front, Path: path, Caller: caller, Cancel: cancel}.id()})
 				}
 			}
@@ -116,6 +116,8 @@ func c06Run(c Cell, env *Env) CellResult {
 		op.CBef = true
 	case "after":
 		op.Cancel = true
+	case "deadline":
+		op.DL = true
 	}
 
 	cfg := FCfg{Front: cc.Front, MS: true, FailC: "0", Script: "o"}
@@ -334,7 +336,7 @@ func init() {
 		ID: "C06", Title: "TTL and context travel through Failover as documented",
 		Cells: c06Cells, Run: c06Run,
 		Rule: "grid caller TTL {no cell, 0, 10s, 1h, -1s} x builder behaviour (every sequence of <=2 WithTTL(ctx,b,upd) calls, b in {0,5s,2h,-1s}, upd in {true,false}: 73) x path {cold miss, sync update of a stale value, background update, waiter, SkipRead on a fresh entry} " +
-			"x caller context cancelled {never, before, after} x 3 front-ends; each case under the scheduler with all schedules (unbounded, HB cached); a recording backend wrapper notes TTL(ctx) of every Write, the builder notes Err/Done/Deadline/Value of its context",
+			"x caller context {never cancelled, cancelled before, cancelled after, carrying a deadline} x 3 front-ends; each case under the scheduler with all schedules (unbounded, HB cached); a recording backend wrapper notes TTL(ctx) of every Write, the builder notes Err/Done/Deadline/Value of its context",
 		Assumptions: []string{
 			"'smallest non-zero' is taken over signed durations (a negative TTL is smaller than any positive one), as the implementation's comparison does",
 			"when the caller supplied no TTL cell the builder has no channel to Failover; only the backend default is required then",
